@@ -80,7 +80,7 @@ def eq(x, y):
                 return True
             xkey, xval = zip(*sorted(x.items()))
             ykey, yval = zip(*sorted(y.items()))
-            return eq(xkey, ykey) and eq(np.array(xval, dtype='object'), np.array(yval, dtype='object'))
+            return eq(xkey, ykey) and eq(xval, yval)
         else:
             return False
     elif isinstance(x, float) and np.isnan(x):
